@@ -60,6 +60,10 @@ DocsMatch(lazy) == { Doc(m, al, ps, TRUE, <<RoleR1(<<"p1">>)>>, TRUE, <<IdAlice>
 \* dangling names (p3, r3, i3), duplicate names, sections present or absent
 IdPool == [name : {"i1", "i2"}, user : {NONE, "alice", "bob"}, group : {NONE, "g2"}, proc : {NONE, "p"}, exe : {NONE}]
           \cup {[name |-> "i1", user |-> NONE, group |-> NONE, proc |-> NONE, exe |-> "/bin/q"]}
+          \* an attribute STATED as the empty string is stated: it equals no caller's (non-empty) attribute
+          \cup {[name |-> "i1", user |-> t[1], group |-> t[2], proc |-> t[3], exe |-> t[4]] :
+                  t \in {<<"", NONE, NONE, NONE>>, <<NONE, "", NONE, NONE>>, <<NONE, NONE, "", NONE>>, <<NONE, NONE, NONE, "">>,
+                         <<"", "", "", "">>, <<"alice", NONE, "", NONE>>}}
 IdPlain(n, u) == [name |-> n, user |-> u, group |-> NONE, proc |-> NONE, exe |-> NONE]
 RolePool == [name : {"r1", "r2"}, privs : {<<"p1">>, <<"p2">>, <<"p1", "p2">>, <<"p3">>}]
 AsgPool == [role : {"r1", "r3"}, ids : {<<"i1">>, <<"i2">>, <<"i1", "i2">>, <<"i3">>}]
